@@ -22,6 +22,11 @@ def space(tier):
 
 def cases(tier):
     q = tier == 'quick'
+    # linear dynamics with a SLOWLY rotating mode pair 0.9 exp(+-i 6e-9) next to a real eigenvalue 0.6: the imaginary parts are tiny
+    # in absolute terms but the pair is a genuine conjugate pair with two linearly independent modes
+    for dims_ in ([4], [2, 3], [3, 3]):
+        for m_ in (6, 8):
+            yield {'slowrot': True, 'dims': dims_, 'm': m_, 'fam': 'slowrot', 'thr': 1e-10, 'rep': 'ttsvd', 'fl': 'TT'}
     for d in ((1, 2, 3) if q else (1, 2, 3, 4)):
         for dims in itertools.product([2, 3] if (q or d == 4) else [2, 3, 4], repeat=d):
             for m in ((3, 4, 5, 6) if q else (3, 4, 5, 6, 8, 10)):
@@ -145,7 +150,46 @@ def make_data(rng, dims, m, fam, thr=0):
     return Z[:, :-1], Z[:, 1:]
 
 
+def run_slowrot(case, seed):
+    from scikit_tt.tensor_train import TT
+    from scikit_tt.data_driven import tdmd
+    r = R(case)
+    rng = rng_for(case, seed)
+    dims, m = case['dims'], case['m']
+    d = len(dims); N = int(np.prod(dims))
+    th = 6e-9
+    lam = np.array([0.9 * np.exp(1j * th), 0.9 * np.exp(-1j * th), 0.6])
+    V = np.zeros((3, 3), dtype=complex); V[:2, :2] = np.array([[1, 1], [1j, -1j]]) / np.sqrt(2); V[2, 2] = 1
+    B = np.real(V @ np.diag(lam) @ np.linalg.inv(V))
+    modes = np.linalg.qr(rng.standard_normal((N, 3)))[0]
+    C = rng.standard_normal((3, m))
+    X = modes @ C; Y = modes @ B @ C
+    shape = dims + [m] + [1] * (d + 1)
+    x = TT(X.reshape(shape)); y = TT(Y.reshape(shape))
+    r.nontrivial = True
+    for name, f in (('tdmd_exact', tdmd.tdmd_exact), ('tdmd_standard', tdmd.tdmd_standard)):
+        with r.op(name + ':slow-rotation:call'):
+            ev, md = f(x, y, threshold=1e-10)
+            ev = np.asarray(ev)
+            if not r.true(name + ':slow-rotation:eigenvalue-count', ev.shape == (3,), '%s' % (ev.shape,)):
+                continue
+            pair = [i for i in range(3) if abs(ev[i] - 0.9) < 1e-3]
+            if not r.true(name + ':slow-rotation:pair-found', len(pair) == 2, 'eigenvalues %s' % ev):
+                continue
+            im = np.sort(np.imag(ev[pair]))
+            r.true(name + ':slow-rotation:imaginary-parts', np.allclose(im, [-0.9 * np.sin(th), 0.9 * np.sin(th)], rtol=0, atol=5e-10),
+                   'imaginary parts %s, expected +-%.3e' % (im, 0.9 * np.sin(th)))
+            if meta_problem(md) is None:
+                Mm = dn(md).reshape(N, 3)[:, pair]
+                Mm = Mm / np.linalg.norm(Mm, axis=0)
+                sv = np.linalg.svd(Mm, compute_uv=False)
+                r.true(name + ':slow-rotation:independent-modes', sv[1] > 1e-2, 'the two modes of the pair are (nearly) parallel: singular values %s' % sv)
+    return r
+
+
 def run_case(case, seed):
+    if case.get('slowrot'):
+        return run_slowrot(case, seed)
     from scikit_tt.tensor_train import TT
     import scikit_tt.tensor_train as tt
     from scikit_tt.data_driven import tdmd
